@@ -155,6 +155,9 @@ impl Compactor {
 			None
 		};
 
+		#[cfg(surrealkv_verif)]
+		crate::verif::gate("compact.written", &[("table", new_table_id)]);
+
 		// Update manifest - this will commit the guard on success
 		self.update_manifest(input, new_table, &mut guard)?;
 
